@@ -266,8 +266,13 @@ def run_counts(ctx, rng, idx):
             side, f, n = ((Xh, fx, nx) if hk in (0, 2) else (Yh, fy, ny))
             side = side.astype(wd)
             k = int(rng.integers(1, 3)) * (-1 if hk < 2 else 1)
-            side[int(rng.integers(0, T)), int(rng.integers(0, f))] = \
-                int(rng.integers(0, int(np.min(n)))) + k * 2 ** w
+            nmax = int(np.max(n))
+            v = int(rng.integers(0, int(np.min(n)))) + k * 2 ** w
+            while 0 <= v < nmax:
+                # with >= 2^w declared states legal + 2^w can itself be
+                # legal: keep stepping until it really is undeclared
+                v += (1 if k > 0 else -1) * 2 ** w
+            side[int(rng.integers(0, T)), int(rng.integers(0, f))] = v
             if hk in (0, 2):
                 Xh = side
             else:
